@@ -66,8 +66,11 @@ const (
 	effElse
 	effEnd
 	effImport
-	effNeg // renders a negative number: the body starts with '-' but "{{-7" is no trim marker (that needs "{{- ")
-	effTry // try without catch around a body that cannot fail: renders the body
+	effNeg    // renders a negative number: the body starts with '-' but "{{-7" is no trim marker (that needs "{{- ")
+	effTry    // try without catch around a body that cannot fail: renders the body
+	effBlockW // {{block w()}} around a lone {{yield content}}: the definition site renders nothing (no default content)
+	effYieldC // {{yield content}} inside that definition
+	effYieldW // {{yield w() content}} ... {{end}}: the content (text included, whitespace-only text too) is rendered in place
 )
 
 type seg struct {
@@ -322,7 +325,9 @@ func c03expect(segs []seg) string {
 					i++
 				case effElse, effEnd:
 					return i
-				case effIfT, effIfF, effTry:
+				case effYieldC:
+					i++
+				case effIfT, effIfF, effTry, effBlockW, effYieldW:
 					cond := s.Eff != effIfF
 					j := run(i+1, emit && cond)
 					if j < len(segs) && segs[j].Eff == effElse {
@@ -352,6 +357,7 @@ func c03expect(segs []seg) string {
 }
 
 type c03gen struct {
+	hasW bool // the template starts with the definition of block w
 	r    *rand.Rand
 	d    delimCfg
 	nm   int
@@ -389,6 +395,12 @@ func (g *c03gen) act(eff actEffect, lt, rt bool) seg {
 		s.Body = "if false"
 	case effTry:
 		s.Body = "try"
+	case effBlockW:
+		s.Body = "block w()"
+	case effYieldC:
+		s.Body = "yield content"
+	case effYieldW:
+		s.Body = "yield w() content"
 	case effRange:
 		s.N = g.r.Intn(3)
 		s.Body = fmt.Sprintf("range ints(0,%d)", s.N)
@@ -423,9 +435,16 @@ func (g *c03gen) genList(depth, n int) {
 			g.add(g.act(eff, g.r.Intn(2) == 0, g.r.Intn(2) == 0))
 		default:
 			eff := []actEffect{effIfT, effIfF, effRange, effTry}[g.r.Intn(4)]
+			if g.hasW && g.r.Intn(3) == 0 {
+				eff = effYieldW
+			}
 			g.add(g.act(eff, g.r.Intn(2) == 0, g.r.Intn(2) == 0))
-			g.genList(depth+1, g.r.Intn(4))
-			if eff != effTry && g.r.Intn(2) == 0 {
+			if eff == effYieldW && g.r.Intn(3) == 0 {
+				g.add(seg{Kind: segText, Text: c03genText(g.r, 2)}) // whitespace-only content is content
+			} else {
+				g.genList(depth+1, g.r.Intn(4))
+			}
+			if eff != effTry && eff != effYieldW && g.r.Intn(2) == 0 {
 				g.add(g.act(effElse, g.r.Intn(2) == 0, g.r.Intn(2) == 0))
 				g.genList(depth+1, g.r.Intn(4))
 			}
@@ -492,6 +511,12 @@ func c03run(c *fw.Ctx, idx int) {
 				g.add(g.act(effMark, r.Intn(2) == 0, r.Intn(2) == 0))
 			}
 			class = "header"
+		}
+		if class == "random" && r.Intn(3) == 0 {
+			g.hasW = true
+			g.add(g.act(effBlockW, r.Intn(2) == 0, false))
+			g.add(g.act(effYieldC, false, false))
+			g.add(g.act(effEnd, false, r.Intn(2) == 0))
 		}
 		if class == "random" && r.Intn(8) == 0 {
 			// a byte order mark is text like any other, also as the very first thing in a file that comes from a loader
@@ -611,7 +636,7 @@ func init() {
 	fw.Register(&fw.Property{
 		ID:        "C03",
 		Technique: "segment-model output monitor over generated templates (exhaustive 3-segment windows x delimiter configs, then random)",
-		Rule: "each case is a template built from a list of segments Text|Comment|Action(trim-left,trim-right) (nested if/range/try/else/end, optional leading import clauses) printed in one of 14 delimiter configurations (incl. symmetric comment markers); " +
+		Rule: "each case is a template built from a list of segments Text|Comment|Action(trim-left,trim-right) (nested if/range/try/else/end, a block rendering 'yield content' and yields of it with text content, optional leading import clauses) printed in one of 14 delimiter configurations (incl. symmetric comment markers); " +
 			"all 729 ordered triples of 9 segment shapes (incl. an action whose body starts with '-') are enumerated per configuration, then random longer lists; a case is kept only if an independent leftmost-opener scanner recovers exactly the intended segmentation; " +
 			"oracle: byte-exact comparison with the segment model (text verbatim, trim markers strip the adjacent [ \\t\\r\\n] run only, comments vanish, whitespace-only text next to leading imports dropped) under the default HTML escaper; every 5th case is preceded by an unrelated execution whose try bodies fail after buffering text (nothing of it may show up); " +
 			"non-trivial = some text with edge whitespace is adjacent to a comment or a trimming action; distinct by (delimiter config, sequence of segment shapes)",
